@@ -94,6 +94,8 @@ def build_arg(w, st, j):
             return None
         if kind == "lganm":
             return dict((t, tuple(v) if isinstance(v, list) else v) for t, v in lst)
+        if kind == "lganm.npkeys":
+            return dict((np.int64(t), tuple(np.float64(x) for x in v) if isinstance(v, list) else v) for t, v in lst)
         return dict((t, w.fn(s)) for t, s in lst)
     return dec(j)
 
@@ -108,6 +110,14 @@ def h_buf_new(w, st, rec):
     v = dec(rec["value"])
     if rec.get("as") == "list":
         v = v.tolist()
+    elif rec.get("as") == "view" and isinstance(v, np.ndarray) and v.ndim in (1, 2) and v.size:
+        # a non-contiguous view into a larger array the caller owns
+        base = np.zeros(tuple(2 * d for d in v.shape), dtype=v.dtype)
+        sl = tuple(slice(None, None, 2) for _ in v.shape)
+        base[sl] = v
+        st.bufs[rec["id"] + ".base"] = base
+        v = base[sl]
+        w.probes["buf.view"] += 1
     st.bufs[rec["id"]] = v
     return "ok:-", None
 
@@ -118,6 +128,14 @@ def model_ctor(w, st, mtype, params):
     if mtype == "lganm":
         return lambda: S.LGANM(params["W"], params["means"], params["variances"], random_state=params.get("seed"))
     if mtype == "nd":
+        if params.get("check_valid"):
+            import warnings
+
+            def f():
+                with warnings.catch_warnings():
+                    warnings.simplefilter("ignore")
+                    return S.NormalDistribution(params["mean"], params["cov"], check_valid=params["check_valid"])
+            return f
         return lambda: S.NormalDistribution(params["mean"], params["cov"])
     if mtype == "anm":
         return lambda: S.ANM(params["A"], params["assign"], params["noise"])
@@ -137,6 +155,9 @@ def spec_params(w, st, rec):
         spec[k] = enc(v)
     if mtype == "lganm":
         params["seed"] = spec["seed"] = rec.get("seed")
+    if mtype == "nd" and rec.get("check_valid"):
+        params["check_valid"] = spec["check_valid"] = rec["check_valid"]
+        w.probes["nd.check_valid"] += 1
     if mtype == "anm":
         params["assign"] = [w.fn(s) for s in rec["assign"]]
         params["noise"] = [w.fn(s) for s in rec["noise"]]
@@ -151,6 +172,8 @@ def twin_params(w, spec):
     params = {k: dec(spec[k]) for k in PARAMS[mtype]}
     if mtype == "lganm":
         params["seed"] = spec.get("seed")
+    if mtype == "nd" and spec.get("check_valid"):
+        params["check_valid"] = spec["check_valid"]
     if mtype == "anm":
         params["assign"] = [w.fn(s) for s in spec["assign"]]
         params["noise"] = [w.fn(s) for s in spec["noise"]]
@@ -214,7 +237,7 @@ def call_method(w, st, obj, mtype, method, a, seed, argvals=None):
             v = a.get(short, "omit")
             if v == "omit":
                 continue
-            kw[name] = build_arg(w, st, {"__ivs__": ["lganm", v]})
+            kw[name] = build_arg(w, st, {"__ivs__": ["lganm.npkeys" if a.get("npkeys") else "lganm", v]})
             args.append(kw[name])
         if a.get("population"):
             kw["population"] = True
@@ -417,6 +440,21 @@ def h_u_call(w, st, rec):
                              "cls": "result_depends_on_history", "variant": "pristine"}
     if out[0] == "ok" and rec.get("keep"):
         st.results[rec["keep"]] = {"obj": out[1], "digest": digest(out[1]), "site": site, "model": None}
+    if rec.get("sweep") and rec.get("arm") is None:
+        seam_calls = dict(w.last_seam_calls)
+        for seam in sorted(seam_calls):
+            for k in range(1, seam_calls[seam] + 1):
+                args2 = [build_arg(w, st, a) for a in rec["args"]]
+                kw2 = {kk: build_arg(w, st, v) for kk, v in rec.get("kw", {}).items()}
+                if "dtype" in kw2 and isinstance(kw2["dtype"], str):
+                    kw2["dtype"] = np.dtype(kw2["dtype"])
+                pre2 = [digest(x) for x in args2]
+                out2 = w.call(f, *args2, arm=[seam, k, "MemoryError"], **kw2)
+                w.probes["sweep.fault_positions"] += 1
+                w.probes["sweep.utils"] += 1
+                if pre2 != [digest(x) for x in args2]:
+                    w.violate("argument_modified", site, {"after": "injected %s failure #%d" % (seam, k)})
+                check_models(w, st, site, failed=(out2[0] == "exc"))
     return outcome_digest(*out), out
 
 
@@ -765,7 +803,8 @@ class GS:
 def new_buf(g, gs, ops, c, value, allow_list=True):
     gs.nbuf += 1
     bid = "a%d" % gs.nbuf
-    as_ = "list" if allow_list and g.random() < 0.2 else "nd"
+    r = g.random()
+    as_ = "list" if allow_list and r < 0.2 else ("view" if r > 0.85 else "nd")
     ops.append({"c": c, "op": "buf.new", "id": bid, "value": enc(value), "as": as_})
     return bid, as_
 
@@ -817,6 +856,10 @@ def gen_model(g, gs, cfg, ops, c, invalid=False):
             mean = G.rand_vec(g, p + 1, -2, 2)
         rec["mean"] = arg(mean)
         rec["cov"] = arg(cov)
+        if g.random() < 0.2:
+            rec["check_valid"] = g.choice(["raise", "warn"])
+            if "seam.raise" in cfg["faults"] and g.random() < 0.3:
+                rec["arm"] = ["np.linalg.cholesky", 1, "MemoryError"]
     else:
         A = G.rand_dag(g, p, weighted=g.random() < 0.3)
         if invalid:
@@ -861,6 +904,8 @@ def gen_m_call(g, gs, cfg, mid, force_method=None):
         rec["method"] = "sample"
         pop = g.random() < 0.5
         a = {"do": G.lganm_ivs(g, p), "shift": G.lganm_ivs(g, p), "noise": G.lganm_ivs(g, p)}
+        if g.random() < 0.15:
+            a["npkeys"] = True
         if pop:
             a["population"] = True
             if g.random() < 0.5:
@@ -1014,6 +1059,8 @@ def generate(run_seed):
         if kind == "u.call":
             rec = U.gen_utils_call(g, cfg["pmax"])
             rec["c"] = c
+            if rec["fn"] in ("sampling_matrix",) and g.random() < max(cfg["sweep_rate"], 0.2):
+                rec["sweep"] = True
             if g.random() < 0.5:
                 gs.nres += 1
                 rec["keep"] = "r%d" % gs.nres
@@ -1116,7 +1163,8 @@ REQUIRED_PROBES = ["iv.do.non_source", "iv.shift.non_source", "iv.noise.non_sour
                    "scribble.out:utils.all_dags", "scribble.out:utils.split_data", "meek_rule_fired",
                    "all_dags.undirected_edge", "topological_ordering.with_edges", "split_data.n>=2",
                    "op_after_failed_op_same_model", "natural_LinAlgError", "history.first_vs_later",
-                   "history.aged_vs_twin", "sweep.fault_positions", "obs_law.checked"]
+                   "history.aged_vs_twin", "sweep.fault_positions", "sweep.utils", "obs_law.checked", "buf.view",
+                   "nd.check_valid"]
 
 
 def simplify(op):
